@@ -96,8 +96,8 @@ CFG = dict(
              "malformed JSON in UpdateParameter, unknown node ids / producer names (panic) are not generated; liveness is not claimed",
              "an unlocked ParameterData alone is caught by the lock facts and the race detector, not by the linearizability oracle "
              "(a single-word read stays linearizable in every recorded history)",
-             "C11's guards (acyclic graph; ReadsAll: processors read all their wired inputs — used by artifact_snapshot: an artifact equals the "
-             "from-scratch value) are inherited; for skipping processors the artifact values are tested fresh (C11), not proved"],
+             "C11's guard (the graph is acyclic) is inherited; artifact_snapshot holds for every processor, skipping ones included "
+             "(C11 read_fresh needs no ReadsAll); programs_correct / locked_artifact_is_atomic use the all-reading trace artifactTrace (ReadsAll)"],
     assumptions=["wiring is fixed during a concurrent history", "sync.Mutex provides mutual exclusion and happens-before"],
     manifest=dict(
         text="Lean 4 theorems about lock-protocol models over C11's node-graph model. Atomic system Exec (one step per critical section): "
@@ -121,8 +121,8 @@ CFG = dict(
              "Go's sync.Mutex; the race detector. Runtime residue: data-race freedom is the race detector's verdict on the runs made, not a "
              "theorem. That the Go functions are clients of the fine-grained model (all shared-state accesses between Lock and Unlock; their "
              "steps compose to the sequential operation) rests on the lock facts plus correspondence, not on a Go semantics; the split of "
-             "process() into micro-steps is one level deep. artifact_snapshot inherits C11's guards (acyclic graph, processors that read all "
-             "wired inputs). HTTP plumbing, graph edits concurrent with the three calls, ModelVersion() (unlocked read, outside the three entry "
+             "process() into micro-steps is one level deep. artifact_snapshot inherits C11's guard (acyclic graph) and holds for every "
+             "processor; the micro-step programs (artifactTrace) are those of all-reading processors. HTTP plumbing, graph edits concurrent with the three calls, ModelVersion() (unlocked read, outside the three entry "
              "points) are not modelled. Value semantics of returned results (no aliasing with buffers a later update writes) is a tested "
              "predicate (results_immutable), not a theorem.",
         technique="Lean 4 proof (linearizability of the atomic lock protocol over C11's model, refinement from the fine-grained locked system, "
